@@ -159,6 +159,12 @@ FsrDecodes(D, g) ==
     ELSE IF Len(X) = 0 THEN "no DATA chunk for a signal with samples"
     ELSE IF X[1].ts # g.first THEN "first DATA chunk does not start at the first sample id"
     ELSE IF \E i \in 1..Len(X) : X[i].esb # g.bits THEN "DATA entry size differs from the signal's type"
+    \* format.h: summary entries are 4 x f64 for u32 / i32 / u64 / i64 / f64 signals (whatever their fixed-point
+    \* position), 4 x f32 for all other types
+    ELSE IF \E c \in { D[i] : i \in 1..Len(D) } :
+              c.kind = "track" /\ c.tt = TT_FSR /\ c.ck = CK_SUMMARY /\ c.sig = g.id
+              /\ c.esb # (IF g.dt \in {"u32", "i32", "u64", "i64", "f64"} THEN 256 ELSE 128)
+         THEN "FSR SUMMARY entry size differs from what the format prescribes for the signal's type"
     ELSE IF \E i \in 1..Len(X) : (X[i].ts - g.first) % g.norm.spd # 0 \/ X[i].cnt > g.norm.spd \/ X[i].cnt = 0
          THEN "DATA chunk is not aligned to the block size"
     ELSE IF \E i \in 1..(Len(X)-1) : X[i].cnt # g.norm.spd \/ X[i+1].ts <= X[i].ts THEN "a DATA chunk other than the last is not full"
